@@ -13,3 +13,9 @@ case "$1" in
  harmless)
   ls $2 | xargs -P ${JOBS:-5} -I{} sh -c 'p=$(basename {} .diff); python3 -m vlib.selftest --checks all --out selftest_out/$p.json {} 2>&1 | grep -v WARNING';;
 esac
+case "$1" in
+ thorough)
+  for p in C01 C02 C03 C04 C05 C06 C07 C08 C09 C10 C11 C12 C13 C14 C15 C16 C17 C18 C19 C20; do
+    /usr/bin/time -f "$p wall=%es" ./check $p --tier thorough > selftest_out/thorough_$p.log 2>&1; echo "$p exit=$? $(grep -c ^VIOLATION selftest_out/thorough_$p.log) $(tail -2 selftest_out/thorough_$p.log | tr '\n' ' ' | cut -c1-200)"
+  done;;
+esac
